@@ -36,9 +36,44 @@ claim('C14', 'proof', 'Coq theorems (constructor / clone / substructure specific
       'clone and get_substructure (after fix F2) preserve labels and give exactly the induced transitions, RuntimeError exactly when the induced relation is not total. '
       'Tie: every argument combination over <= 2 states, all 3-state (S,R) with sampled S0/L, random <= 5 states, every subset V; container-type and state-type variation.',
       'Label-set aliasing (id disjointness, mutation through every handed-out object) is monitored at run time, not modelled.')
+claim('C04', 'proof', 'Coq corollaries of the exactness theorems C01-C03 (22 laws) + implementation-side evaluation of every law with per-answer comparison to the model',
+      'C04_three_checkers_agree, _ctls_ctl_agree, _ctls_ltl_agree, _ctl_ltl_agree; not/and/or/implies = complement/intersection/union for CTL and CTL-star; A g = not E not g; '
+      'AX/EX, AF/EG, AG/EF dualities; the six fixpoint expansion laws. Tie: 138 named laws evaluated on the implementation (both sides through the real modelcheck, as objects, cast objects, printed text, hand-written text) '
+      'on all <=2-state structures + random, and every single answer compared with the model.',
+      'The text-vs-object clause rests on C09 (parser round trip).')
+claim('C06', 'proof', 'Coq theorems (the answer is a function of state set / edge relation / labelling relation; commutes with injective renamings; unaffected by unreachable states) + monitored execution under hash seeds',
+      'C06_presentation_*, _rename_states_*, _rename_atoms_*, _unreachable for CTL, LTL and CTL-star, _scc_presentation, _reach_presentation. PARTIAL by nature: PYTHONHASHSEED and set iteration order are runtime facts; '
+      'the check runs each sampled (K,f) under permuted argument orders, renamings to ints/strings/tuples, atom renamings, unreachable extensions, and in fresh interpreters under 3 (quick) / 16 (thorough) hash seeds, '
+      'comparing all variants with each other and with the model run on every presentation read back from the live objects.',
+      'Hash-seed independence is established by monitored execution on sampled inputs, not by proof.')
+claim('C09', 'proof', 'Coq theorems (lexing of printed strings; the deterministic parser model inverts the printer; printer injectivity) + differential test of printer and parser models against str() and Lark',
+      'C09_roundtrip (PL, CTL-star, LTL), C09_roundtrip_ctl (CTL in CTL-star notation through both parsers), C09_injective, C09_injective_std, C09_ctl_compact_refuted. '
+      'The parser model (Lark LALR + contextual lexer: contextual keyword resolution, operator-position prefix matching) agreed with the real parsers on ~800k strings before any theorem was stated. '
+      'Tie: tree_of(Parser()(str(f))) = tree_of(f), str(f) = model print, model parse of the printed string, injectivity by grouping; all operator-tree shapes of depth <= 2 with rotated leaves incl. risky atom names, random depth 5.',
+      'Lark\'s LALR(1) table construction and contextual lexer are trusted to behave as on the tested strings.')
+claim('C10', 'proof', 'Coq theorems (parser totality, membership of every accepted formula in the logic, soundness w.r.t. the documented grammars transcribed as CFGs with free tokenisation) + monitored exception contract',
+      'C10_total, C10_member, C10_sound (accepted => derivable in the documented grammar with the same AST; character level), C10_grammar_member, C10_strict, C10_accepts_printed, C10_examples. '
+      'PARTIAL: the exception class and .pos are produced by Lark and are monitored on the implementation (class by identity, 0 <= pos <= len), not modelled. '
+      'Tie: accept/reject and tree of model vs real parsers on all <=3-word sequences + sampled (quick) / all (thorough) 4-word sequences, mutations, cross-feeding, glued forms, garbage.')
+claim('C15', 'other', 'partial Coq proof + machine-checked refutation witnesses + three-way differential classification (implementation / faithful model / fair reference semantics)',
+      'The property is REFUTED for the code and for the faithful model (known findings KF-C15-a, KF-C15-b; theorems C15_*_refuted). Proved: C15_fair_states_sound, C15_fair_states_ref_exact (what a repair must compute), '
+      'C15_fair_label_fresh/_marks, C15_no_error_ctl/ltl/ctls (every F), C15_guards, C15_unfair_ctl_total. The check compares implementation, faithful model and CGP reference semantics: '
+      'a wrong answer that equals the faithful model is a KNOWN-FINDING, any other wrong answer, any internal error, any change of K, any F=None deviation is a VIOLATION.',
+      'Level "other": proof where the property holds, refutation where it does not; exactness w.r.t. fair semantics cannot be claimed.')
+claim('C16', 'proof', 'Coq theorems (store invariant preserved by every operation incl. arbitrary garbage collection; canonicity; induction over operation histories) + history-level differential test with real gc',
+      'C16_invariant_all_histories (for all n, ops: wf_h (hrun n ops); HGc spares an arbitrary extra set = every collector timing), _no_duplicate_triples, _canonical, _eq, _meaning_stable, _collect, _same_function_same_node. '
+      'Tie: random histories (parse/lambda/and/or/xor/not/restrict/reparse/drop/gc) on the real classes in fresh interpreters with gc.collect() at gc steps vs the model: status, truth tables, == and is matrices, variables, live count, duplicate-triple scan after every step.',
+      'CPython\'s collector itself is not modelled; the theorem covers every timing, the test exercises CPython\'s.')
+claim('C17', 'proof', 'Coq theorems (Shannon-expansion apply/negation/cofactor correct, reduced and ordered for any Boolean operator; support; memoised = unmemoised) + differential test with truth tables',
+      'C17_apply (any bool->bool->bool), _obdd_apply, _neg, _restrict, _support, _ordering_mismatch, _incomparable, _respects_ordering, _apply_cache/_neg_cache/_restrict_cache (the code\'s memo dictionaries return exactly the same store and node), _cache_reuse_refuted. '
+      'Tie: all pairs of a 47-expression basis x orderings x {&,|,^}, ~, restrict(v,b): truth tables vs independent evaluation and vs model, node walk (ordered, reduced), variables(), RuntimeError guards.')
+claim('C18', 'proof', 'Coq theorems (expression building denotes the expression; canonicity across notations; printer/parser round trip to the identical root) + differential test of both notations and printing',
+      'C18_lambda, _build, _synonyms, _same_function_same_node, _missing_variable, _bad_syntax, _never_ok_when_ill_formed, _print_parse, _roundtrip (OBDD(str(o.root), o.ordering) is the identical root), _old_printer_refuted. '
+      'Tie: expression / lambda / keyword forms / str(root) / str(o) round trips compared pairwise and with the model, printed token list vs model, malformed stream incl. the statement-shaped corpus (fix F11).',
+      'Python\'s ast module is trusted to produce the AST shapes of bexp.')
 for p, why in [
-    ('C04', 'check being assembled'),
-    ('C06', 'check being assembled'), ('C07', 'check being assembled'), ('C09', 'check being assembled'),
-    ('C10', 'check being assembled'), ('C15', 'check being assembled'),
-    ('C16', 'check being assembled'), ('C17', 'check being assembled'), ('C18', 'check being assembled'), ('C19', 'check being assembled')]:
+    
+    ('C07', 'check being assembled'), 
+    
+    ('C19', 'check being assembled')]:
     na(p, 'not claimed yet: ' + why + '; see DESIGN.md section 6 for the planned theorem and correspondence')
